@@ -62,7 +62,7 @@ class Build:
     """How to build the driver in one variant."""
 
     def __init__(self, name, profile="release", hooks=True, features=None, toolchain=None,
-                 rustflags="", target=None, zflags=(), no_default=False):
+                 rustflags="", target=None, zflags=(), no_default=False, cargo_env=None):
         self.name = name
         self.profile = profile
         self.hooks = hooks
@@ -72,6 +72,8 @@ class Build:
         self.target = target
         self.zflags = tuple(zflags)
         self.no_default = no_default or features is not None
+        # settings a user would put into [profile.*]: passed as CARGO_PROFILE_* so that build scripts see them too
+        self.cargo_env = dict(cargo_env or {})
 
     def target_dir(self):
         return os.path.join(VERIF, "target", self.name)
@@ -103,6 +105,14 @@ BUILDS = {
     "checked-std": Build("checked-std", features=["std", "x25519", "p256", "p384", "p521"]),
     # neither alloc nor std: the crate's bare no_std configuration (allocating API absent)
     "checked-noalloc": Build("checked-noalloc", features=["x25519", "p256", "p384", "p521"]),
+    # panic strategy abort: a panic ends the process (nothing can be caught)
+    "panic-abort": Build("panic-abort", rustflags="-C panic=abort"),
+    # other optimisation levels and CPU feature sets (thorough build-configuration matrix)
+    "opt0": Build("opt0", cargo_env={"CARGO_PROFILE_RELEASE_OPT_LEVEL": "0"}),
+    "opt1": Build("opt1", cargo_env={"CARGO_PROFILE_RELEASE_OPT_LEVEL": "1"}),
+    "opts": Build("opts", cargo_env={"CARGO_PROFILE_RELEASE_OPT_LEVEL": "s"}),
+    "optz": Build("optz", cargo_env={"CARGO_PROFILE_RELEASE_OPT_LEVEL": "z"}),
+    "native": Build("native", rustflags="-C target-cpu=native"),
 }
 
 
@@ -128,6 +138,7 @@ def build_driver(b, timeout=1800):
     if b.hooks:
         flags = ("--cfg %s " % GUARD) + flags
     env["RUSTFLAGS"] = flags.strip()
+    env.update(b.cargo_env)
     t0 = time.time()
     try:
         p = subprocess.run(cmd, cwd=cdir, env=env, stdout=subprocess.PIPE, stderr=subprocess.STDOUT,
